@@ -68,7 +68,7 @@ def render_sdl(s, order=None, explicit_roots=False, extensions=False):
         if key == "scalars":
             out.append("scalar %s" % n)
         elif key == "enums":
-            out.append("enum %s { %s }" % (n, " ".join(s["enums"][n])))
+            out.append("enum %s { %s }" % (n, " ".join((v if isinstance(v, str) else "%s @deprecated%s" % (v[0], ('(reason: "%s")' % v[1]) if v[1] else "")) for v in s["enums"][n])))
         elif key in ("objects", "interfaces"):
             d = s[key][n]
             fs = []
@@ -101,7 +101,8 @@ def render_json(s, order=None, wrap_data=False, with_builtin=True, is_one_of_key
         if key == "scalars":
             types.append({"kind": "SCALAR", "name": n})
         elif key == "enums":
-            types.append({"kind": "ENUM", "name": n, "enumValues": [{"name": v, "isDeprecated": False, "deprecationReason": None} for v in s["enums"][n]]})
+            types.append({"kind": "ENUM", "name": n, "enumValues": [({"name": v, "isDeprecated": False, "deprecationReason": None} if isinstance(v, str)
+                                                                     else {"name": v[0], "isDeprecated": True, "deprecationReason": v[1] or None}) for v in s["enums"][n]]})
         elif key in ("objects", "interfaces"):
             d = s[key][n]
             fs = []
@@ -206,7 +207,7 @@ def c13_json_typerefs(tier):
 
 
 CORPUS = [
-    ({"scalars": ["DateTime"], "enums": {"Mood": ["HAPPY", "SAD"]},
+    ({"scalars": ["DateTime"], "enums": {"Mood": ["HAPPY", ("GRUMPY", ""), "SAD", ("BLUE", "use SAD")]},
       "interfaces": {"Node": {"fields": [("id", "ID!"), ("old", "String", "gone")]}},
       "objects": {"User": {"fields": [("id", "ID!"), ("old", "String", "gone"), ("name", "String"), ("mood", "Mood!"), ("at", "DateTime"), ("friends", "[User!]"), ("legacy", "Int", "")], "implements": ["Node"]},
                   "Bot": {"fields": [("id", "ID!"), ("old", "String", "gone"), ("version", "Int!")], "implements": ["Node"]},
